@@ -66,6 +66,14 @@ func c15ErrClass(err error) string {
 	return ""
 }
 
+// c15ErrSig: an error with a recognised cause gets one signature for the cause; any other is named by the leg.
+func c15ErrSig(what, leg string, err error) string {
+	if c := c15ErrClass(err); c != "" {
+		return what + c
+	}
+	return what + "/" + leg
+}
+
 func c15LoadFlat(files []c15File) (*chart.Chart, error) {
 	bf := make([]*loader.BufferedFile, 0, len(files))
 	for _, f := range files {
@@ -110,7 +118,7 @@ func c15JudgeA(tb vt.TB, spec *c15Spec) (cut bool) {
 	}
 	tgz, err := chartutil.Save(c0, outA)
 	if err != nil {
-		return fail("C15:valid-chart-not-saved/save"+c15ErrClass(err), "Save: "+err.Error())
+		return fail(c15ErrSig("C15:valid-chart-not-saved", "save", err), "Save: "+err.Error())
 	}
 	if after := c15SnapOf(c0).c15Text(); after != before {
 		if fail("C15:saving-modifies-chart-in-memory/save", fmt.Sprintf("before %s\nafter  %s", c15Q(before), c15Q(after))) {
@@ -123,9 +131,28 @@ func c15JudgeA(tb vt.TB, spec *c15Spec) (cut bool) {
 			return true
 		}
 	}
+	// what was written, read with the harness's tar reader: every file of the chart, byte for byte
+	if ents, err := c15ReadTgz(tgz); err != nil {
+		return fail("C15:archive-unreadable/save", err.Error())
+	} else {
+		gotB := map[string]string{}
+		diffs = nil
+		for _, e := range ents {
+			if _, dup := gotB[e.Name]; dup {
+				diffs = append(diffs, c15Diff{Sig: "C15:duplicate-entries/save", Detail: "archive entry " + e.Name})
+			}
+			gotB[e.Name] = string(e.Data)
+		}
+		wantB, reenc := map[string]string{}, map[string]bool{}
+		c15ArchiveWant(want, want.Name+"/", wantB, reenc)
+		c15WrittenDiffs("save", wantB, reenc, nil, gotB, &diffs)
+		if c15Report(tb, diffs, rc) {
+			return true
+		}
+	}
 	c1, err := loader.Load(tgz)
 	if err != nil {
-		return fail("C15:saved-chart-not-loadable/save"+c15ErrClass(err), "Load(archive): "+err.Error())
+		return fail(c15ErrSig("C15:chart-not-loadable", "save", err), "Load(archive written by Save): "+err.Error())
 	}
 	diffs = nil
 	c15Compare(want, c15SnapOf(c1), "save", want.Name, &diffs)
@@ -146,9 +173,9 @@ func c15JudgeA(tb vt.TB, spec *c15Spec) (cut bool) {
 	cD, errD := loader.Load(dirH)
 	switch {
 	case errT != nil:
-		return fail("C15:valid-chart-rejected/load-archive"+c15ErrClass(errT), "Load(harness archive): "+errT.Error())
+		return fail(c15ErrSig("C15:chart-not-loadable", "load-archive", errT), "Load(harness archive): "+errT.Error())
 	case errD != nil:
-		return fail("C15:valid-chart-rejected/load-directory", "Load(harness directory): "+errD.Error())
+		return fail(c15ErrSig("C15:chart-not-loadable", "load-directory", errD), "Load(harness directory): "+errD.Error())
 	}
 	diffs = nil
 	c15Compare(c15FilterRoot(c15SnapOf(cT), c15DefaultRules), c15SnapOf(cD), "directory-vs-archive", want.Name, &diffs)
@@ -162,16 +189,50 @@ func c15JudgeA(tb vt.TB, spec *c15Spec) (cut bool) {
 		tb.Fatalf("mkdir: %v", err)
 	}
 	if err := chartutil.SaveDir(c0, outD); err != nil {
-		return fail("C15:valid-chart-not-saved/save-dir"+c15ErrClass(err), "SaveDir: "+err.Error())
+		return fail(c15ErrSig("C15:valid-chart-not-saved", "save-dir", err), "SaveDir: "+err.Error())
 	}
 	if after := c15SnapOf(c0).c15Text(); after != before {
 		if fail("C15:saving-modifies-chart-in-memory/save-dir", fmt.Sprintf("before %s\nafter  %s", c15Q(before), c15Q(after))) {
 			return true
 		}
 	}
+	// what was written: the root chart's files as they are, every subchart as charts/<name>-<version>.tgz
+	if tree, err := c15ReadTree(filepath.Join(outD, want.Name)); err != nil {
+		return fail("C15:directory-unreadable/save-dir", err.Error())
+	} else {
+		wantB, reenc, opt := map[string]string{}, map[string]bool{"Chart.yaml": true}, map[string]bool{"Chart.lock": true}
+		c15WantBytes(want, "", wantB)
+		gotB := map[string]string{}
+		for n, d := range tree {
+			gotB[n] = d
+		}
+		for _, dn := range c15SortedDeps(want) {
+			dep := want.Deps[dn]
+			packed := "charts/" + dn + "-" + dep.Version + ".tgz"
+			raw, ok := tree[packed]
+			if !ok {
+				reenc[packed] = true // reported as missing below
+				continue
+			}
+			delete(gotB, packed)
+			ents, err := c15ReadTgzBytes([]byte(raw))
+			if err != nil {
+				return fail("C15:archive-unreadable/save-dir", packed+": "+err.Error())
+			}
+			for _, e := range ents {
+				gotB[packed+"!"+e.Name] = string(e.Data)
+			}
+			c15ArchiveWant(dep, packed+"!"+dn+"/", wantB, reenc)
+		}
+		diffs = nil
+		c15WrittenDiffs("save-dir", wantB, reenc, opt, gotB, &diffs)
+		if c15Report(tb, diffs, rc) {
+			return true
+		}
+	}
 	c2, err := loader.Load(filepath.Join(outD, want.Name))
 	if err != nil {
-		return fail("C15:saved-chart-not-loadable/save-dir"+c15ErrClass(err), "Load(directory): "+err.Error())
+		return fail(c15ErrSig("C15:chart-not-loadable", "save-dir", err), "Load(directory written by SaveDir): "+err.Error())
 	}
 	diffs = nil
 	c15Compare(c15FilterRoot(want, c15DefaultRules), c15SnapOf(c2), "save-dir", want.Name, &diffs)
